@@ -37,3 +37,70 @@ func VH_C19_Civil() {
 	vAssert("ymdhms-lt", (la < lb) == (c6 < 0))
 	vReach("C19a")
 }
+
+// spec renderings (digit by digit year, optional leap marker, month name, day name)
+func specYearInChinese(y, digits int) string {
+	// the unit fixes the number of digits of y, so the rendering has a fixed layout
+	s := ""
+	div := 1
+	for i := 1; i < digits; i++ {
+		div *= 10
+	}
+	for div >= 1 {
+		s += vhNUMBER((y / div) % 10)
+		div /= 10
+	}
+	return s
+}
+
+func vhNUMBER(d int) string {
+	return []string{"〇", "一", "二", "三", "四", "五", "六", "七", "八", "九"}[d]
+}
+
+var vhMONTH = []string{"", "正", "二", "三", "四", "五", "六", "七", "八", "九", "十", "冬", "腊"}
+var vhDAY = []string{"", "初一", "初二", "初三", "初四", "初五", "初六", "初七", "初八", "初九", "初十", "十一", "十二", "十三", "十四", "十五", "十六", "十七", "十八", "十九", "二十", "廿一", "廿二", "廿三", "廿四", "廿五", "廿六", "廿七", "廿八", "廿九", "三十"}
+
+func specMonthInChinese(m int) string {
+	if m < 0 {
+		return "闰" + vhMONTH[-m]
+	}
+	return vhMONTH[m]
+}
+
+// a lunar date object with the given (symbolic) year / month / day; the renderings read only these fields
+func vhLunarYmd(y, m, d int) *Lunar {
+	return &Lunar{year: y, month: m, day: d, solar: NewSolar(2020, 1, 1, 0, 0, 0)}
+}
+
+// C19b: Chinese renderings of lunar, Taoist and Buddhist dates: digit-by-digit, injective.
+// Units fix the digit count of each year (YLO..YHI) and the sign of each month (LEAPA / LEAPB).
+func VH_C19_Chinese() {
+	ya, yb := vInt("ya", vParam("YALO"), vParam("YAHI")), vInt("yb", vParam("YBLO"), vParam("YBHI"))
+	ma, mb := vInt("ma", 1, 12), vInt("mb", 1, 12)
+	if vParam("LEAPA") == 1 {
+		ma = -ma
+	}
+	if vParam("LEAPB") == 1 {
+		mb = -mb
+	}
+	da, db := vInt("da", 1, 30), vInt("db", 1, 30)
+	off := vParam("OFF") // 0: lunar, 2697: Taoist, 544: Buddhist
+	a, b := vhLunarYmd(ya, ma, da), vhLunarYmd(yb, mb, db)
+	var sa, sb, ay string
+	switch off {
+	case 0:
+		sa, sb, ay = a.String(), b.String(), a.GetYearInChinese()
+	case 2697:
+		sa, sb, ay = a.GetTao().String(), b.GetTao().String(), a.GetTao().GetYearInChinese()
+	default:
+		sa, sb, ay = a.GetFoto().String(), b.GetFoto().String(), a.GetFoto().GetYearInChinese()
+	}
+	// component renderings
+	vAssert("year-digit-by-digit", ay == specYearInChinese(ya+off, vParam("KA")))
+	vAssert("month-name", a.GetMonthInChinese() == specMonthInChinese(ma))
+	vAssert("day-name", a.GetDayInChinese() == vhDAY[da])
+	vAssert("composition", sa == specYearInChinese(ya+off, vParam("KA"))+"年"+specMonthInChinese(ma)+"月"+vhDAY[da])
+	// injectivity: equal renderings only for equal dates
+	vAssert("injective", !(sa == sb) || (ya == yb && ma == mb && da == db))
+	vReach("C19b")
+}
